@@ -26,6 +26,10 @@ Part 6 (E3, value domains): eval() with the schedule's datatype crossed with the
 Part 7 (as part 3): timer-driven runs (a) in every value domain with the zero in every slot, whole-second entry times, and
         (b) with Integer values and entry times that carry hundredths of a second, probed in the hundredth before, the
         hundredth of and the hundredth after every such entry.
+Part 8 (E3, equal priorities): eval() on schedules with two and three exceptions of EQUAL priority in force on the evaluated day.
+        The standard does not say which prevails, so only membership is judged: the value must be one the reference gives when
+        the tie is resolved in some order of precedence (every permutation of the tied exceptions); an exception without an
+        entry in effect yet (all entries later in the day, or an empty list) hides nobody in any order.
 """
 import calendar as _cal
 import datetime
@@ -104,15 +108,33 @@ RULE = ("part1: every (calendar date of the listed years) x (pattern): Date patt
         "12:30:15.25/.75, 08:00:00.07, 08:00:00.50/.51, 16:59:59.99} in weekly lists and in exceptions of each period kind x "
         "effective period {open, entered on day 1, day 1 only} x start instant {00:00, 13:27:41.50}, probed as in part 3 and "
         "in the hundredth before / of / after every entry time that carries hundredths; a reading with hundredths is probed in "
-        "the middle of that hundredth (x.xx5 s).")
+        "the middle of that hundredth (x.xx5 s).  part8: every (ordered pair of the 19 lists of <=2 entries | ordered triple of the "
+        "lists {empty, value all day, value from 08:00, value from 17:00, value all day relinquished at 17:00, Null then value "
+        "from 08:00} (T: 12 lists)) as exceptions of one priority {1,2,16} in force on the evaluated day with different period "
+        "kinds x another exception in force {none, one of lower priority with a value all day, (pairs only) one of higher priority "
+        "with a value from 08:00 relinquished at 17:00}, its place in the array rotating x weekly list {absent, value all day, "
+        "(pairs only) value from 08:00}, evaluated at the 10 instants of part 2; the value must be a member of the set the "
+        "reference gives over all orders of precedence among the tied exceptions; distinct counts configurations.")
 ASSUMPTIONS = [
     "schedule objects are built the way tests/test_local builds them (time values hold atomics of the schedule's datatype or "
     "Null, times and dates are 4-tuples, WeekNDay is the 3-octet string a decoded CalendarEntry holds); values that arrive as AnyAtomic "
     "wrappers through WriteProperty are not covered",
     "time-value lists are in ascending time order with distinct times (the interpreter scans in list order; the statement "
     "does not say what an unsorted list means), all times are specific",
-    "two exceptions of equal priority that are in force on the same day are not enumerated (BACnet resolves it by array "
-    "index in recent revisions, not at all in older ones; the statement is silent)",
+    "two or more exceptions of equal priority in force on the same day (BACnet resolves it by array index in recent revisions, "
+    "not at all in older ones; the statement is silent): parts 2-7 do not enumerate them; part 8 does and judges ONLY membership "
+    "of the evaluated value in the set of tie resolutions: the tied exceptions are treated as strictly ordered in every "
+    "permutation (distinct adjacent priorities in the reference's input) and clause 12.24.4 is applied (reading 'per "
+    "exception': an exception whose current value is NULL lets the next one speak); also admitted, and counted separately "
+    "(outcomes p8:...per-level-only..., a number in coverage.parts), is the reading 'per level': of the tied exceptions that "
+    "have an entry on or before the current time the one that takes precedence speaks for the priority level, and if that "
+    "entry is Null the level is relinquished (this is what the unchanged tree does with the later array element taking "
+    "precedence: a Null entry in effect in a later element hides the value of an earlier element of equal priority).  In both "
+    "readings an exception with no entry in effect yet (all entries in the future, or an empty list) hides nobody.  The next "
+    "transition reported for such a configuration is only required to be a specific time after the evaluated instant; whether "
+    "the value stays admissible until then is counted (outcomes p8:...not-judged...), not judged, and such configurations are "
+    "not run on the timer: on the unchanged tree the first future entry of a later array element replaces the earlier future "
+    "entry of an earlier element of equal priority in the transition slot (P8_JUDGE_NEXT turns the count into a failure)",
     "the ends of a date range are either a specific date (day of week consistent or unspecified) or fully unspecified; "
     "partially wildcarded range ends are not enumerated (not allowed by the standard)",
     "outside the effective period no value is prescribed: only the next-transition report and the liveness of the timer "
@@ -154,13 +176,15 @@ BOUNDS = {
              "part5 3 dates x 10 configurations x 13-21 changes x 12 pure histories, 2 dates x 10 configurations x changes x 4 "
              "change times timer-driven (4 virtual days); part6 354 shape configurations (<=3 exceptions in force) x 10 datatypes x "
              "every slot holding the zero, 12 instants; part7 2 anchor dates x (5 bodies x 10 datatypes x every slot + 8 bodies "
-             "with hundredths x 3 effective periods x 2 start instants), 3 virtual days",
+             "with hundredths x 3 effective periods x 2 start instants), 3 virtual days; part8 7 581 schedules with two and 2 592 "
+             "with three exceptions of equal priority in force (triples over 6 lists), 10 instants",
     "thorough": "part1 every date 1900..2154 (93 137 dates); part2 <=2 exceptions over all 27 lists, 3 exceptions (at most one of them not in force) over the "
                 "19 lists of <=2 entries with 5 of the 20 weekly alternatives; part3 10 anchor dates x 8 effective periods x larger body set; "
                 "part4 the two zones of quick + <-03>3<-02>,M10.3.0/0,M2.3.0/0 (changes at midnight, southern hemisphere) + "
                 "<+1030>-10:30<+11>-11,M10.1.0,M4.1.0 (half-hour shift), both clock changes of 2024 and 2038, 5 effective periods x "
                 "532 bodies (133 lists) x 2 start instants; part5 as quick; part6 1 686 shape configurations (triples over all six "
-                "list shapes) x 10 datatypes x every slot; part7 as quick",
+                "list shapes) x 10 datatypes x every slot; part7 as quick; part8 7 581 schedules with two and 20 736 with three "
+                "exceptions of equal priority in force (triples over 12 lists), 10 instants",
 }
 
 ANY = 255
@@ -2263,6 +2287,163 @@ def p7_shard(item, deadline):
     return acc
 
 
+# ----------------------------------------------------------------------------- part 8: equal priorities in force on one day
+#
+# The standard (up to the revisions that let the lowest array index prevail) and the statement do not say which of two
+# exceptions of equal priority prevails.  Judged is therefore only MEMBERSHIP: the value must be one the reference gives
+# when the tie is resolved in some order of precedence (bv.refs.schedref.admissible_values).  An exception that has no
+# element in effect yet (all its entries in the future, or an empty list) hides nobody in any order.
+
+# list shapes of the triples (indices into SHAPES): empty; value all day; value from 08:00; value from 17:00; value all day
+# relinquished at 17:00 (ends with Null); Null then value from 08:00
+P8_TRIPLE_SHAPES_Q = (0, 1, 3, 5, 12, 9)
+P8_TRIPLE_SHAPES_T = (0, 1, 2, 3, 4, 5, 7, 9, 11, 12, 15, 16)
+P8_WEEKLY_PAIRS = (None, 1, 3)              # absent; value all day; value from 08:00
+P8_WEEKLY_TRIPLES = (None, 1)
+P8_JUDGE_NEXT = False                       # see ASSUMPTIONS: with equal priorities the reported next transition is counted, not judged
+assert [SHAPES[i] for i in P8_TRIPLE_SHAPES_Q] == [
+    (), (((0, 0, 0, 0), False),), (((8, 0, 0, 0), False),), (((17, 0, 0, 0), False),),
+    (((0, 0, 0, 0), False), ((17, 0, 0, 0), True)), (((0, 0, 0, 0), True), ((8, 0, 0, 0), False))]
+
+
+def p8_extras(prio):
+    """Another exception in force beside the tied ones: none, one of lower priority (value all day), one of higher priority
+    (value from 08:00, relinquished at 17:00)."""
+    out = [None]
+    if prio < 16:
+        out.append(("lower", prio + 1 if prio > 1 else 7, ((0, 0, 0, 0), False),))
+    if prio > 1:
+        out.append(("higher", prio - 1, ((8, 0, 0, 0), False), ((17, 0, 0, 0), True)))
+    return out
+
+
+def p8_configs(tier):
+    """(tied shape indices in array order, priority of the tie, extra exception, weekly shape index)."""
+    for pair in itertools.product(range(N2), repeat=2):
+        for prio in PRIOS:
+            for extra in p8_extras(prio):
+                for wk in P8_WEEKLY_PAIRS:
+                    yield (pair, prio, extra, wk)
+    ts = P8_TRIPLE_SHAPES_Q if tier == "quick" else P8_TRIPLE_SHAPES_T
+    for triple in itertools.product(ts, repeat=3):
+        for prio in PRIOS:
+            for extra in p8_extras(prio)[:2]:
+                for wk in P8_WEEKLY_TRIPLES:
+                    yield (triple, prio, extra, wk)
+
+
+def p8_desc(cfg, d, rot):
+    tied, prio, extra, wk = cfg
+    exceptions = []
+    for k, si in enumerate(tied):
+        exceptions.append({"period": periods_for(d, True, rot + 3 * k), "tv": fill(SHAPES[si], 100 * (k + 1)), "prio": prio})
+    if extra is not None:
+        e = {"period": periods_for(d, True, rot + 3 * len(tied)), "tv": fill(extra[2:], 500), "prio": extra[1]}
+        exceptions.insert((rot >> 4) % (len(tied) + 1), e)          # its place in the array rotates
+    weekly = None
+    if wk is not None:
+        weekly = tuple(fill(SHAPES[wk], 10) if i == d.weekday() else (((0, 0, 0, 0), 900 + i),) for i in range(7))
+    win = (WIDE, (dpat(d), dpat(d)), (dpat(d - datetime.timedelta(days=1), dow=False), dpat(d + datetime.timedelta(days=1), dow=False)))
+    return {"period": win[rot % 3], "weekly": weekly, "exceptions": tuple(exceptions), "default": 0}
+
+
+def p8_where(desc, value):
+    """Names the place a (schedule-wide unique) value stands in: tied exception by array position among the tied ones."""
+    if value == desc["default"]:
+        return "default"
+    if not isinstance(value, int):
+        return "unknown-value"
+    if 10 < value < 100:
+        return "weekly"
+    if 500 < value < 600:
+        return "exception-of-another-priority"
+    if 100 < value < 500:
+        return "tied-exception-%d" % (value // 100)
+    return "unknown-value"
+
+
+def judge_tied(desc, d, t, so):
+    """eval() on a configuration with equal priorities in force: (outcome label, failure or None)."""
+    try:
+        res = so._task.eval(dtuple(d), tuple(t))
+    except Exception as err:
+        return "raises", ("eval:equal-priorities:raises:%s" % type(err).__name__, {"error": "%s: %s" % (type(err).__name__, err)})
+    act, strict, level = ref.admissible_values(desc, d, t)
+    if not act:
+        raise HarnessError("C20 part8: a configuration that is not active on its date: %r" % (desc,))
+    try:
+        value, nt = res
+    except Exception:
+        return "odd", ("eval:equal-priorities:result-not-a-pair", {"result": repr(res)})
+    if value is None:
+        return "no-value", ("eval:equal-priorities:active-day-evaluated-as-inactive", {"result": (None, nt)})
+    got = plain_of(None, value)
+    adm = strict | level
+    names = sorted(p8_where(desc, v) for v in adm)
+    if got not in adm:
+        return "value-outside", ("eval:equal-priorities:value-outside-every-resolution-of-the-tie",
+                                 {"got": got, "got_from": p8_where(desc, got), "admissible": sorted(adm), "admissible_from": names,
+                                  "per_exception_reading": sorted(strict), "per_level_reading": sorted(level), "next": nt})
+    if nt is None or len(tuple(nt)) != 4 or ANY in tuple(nt):
+        return "next-odd", ("eval:equal-priorities:next-transition:not-a-specific-time", {"next": repr(nt)})
+    stop = next_instant(d, nt)
+    if stop <= (d, tuple(t)):
+        return "next-not-later", ("eval:equal-priorities:next-transition:not-after-evaluated-instant", {"value": got, "next": nt})
+    # not judged (see ASSUMPTIONS): does the value shown stay admissible up to the reported next transition?
+    stale = ""
+    for x in ref.instants_between(desc, (d, tuple(t)), stop)[1:]:
+        a, s2, l2 = ref.admissible_values(desc, x[0], x[1])
+        if got not in (s2 | l2):
+            if P8_JUDGE_NEXT:
+                return "next-late", ("eval:equal-priorities:next-transition:late:value-leaves-every-resolution-of-the-tie",
+                                     {"value": got, "next": nt, "leaves_at": (str(x[0]), x[1]), "admissible_then": sorted(s2 | l2)})
+            stale = "|not-judged:value-leaves-the-admissible-set-before-the-reported-transition"
+            break
+    reading = "per-exception" if got in strict else "per-level-only(a-Null-entry-of-one-relinquishes-the-level)"
+    return "admissible=%d:shown=%s:%s%s" % (len(adm), p8_where(desc, got), reading, stale), None
+
+
+def p8_shard(item, deadline):
+    seed, tier, idxs = item
+    acc = Acc()
+    cfgs = list(p8_configs(tier))
+    for ci in idxs:
+        if time.time() > deadline:
+            acc.cap("part8: deadline")
+            break
+        cfg = cfgs[ci]
+        rot = ((((ci + 1) * 2654435761) & 0xFFFFFFFF) >> 9) + seed
+        d = P2A_DATES[rot % len(P2A_DATES)]
+        desc = p8_desc(cfg, d, rot)
+        app, so, cals = build(desc)
+        try:
+            for t in INSTANTS:
+                lab, bad = judge_tied(desc, d, t, so)
+                acc.outcome("p8:%s" % lab)
+                if "per-level-only" in lab:
+                    acc.add_info("part8 evaluations whose value is admissible only in the per-level reading (a Null entry of one "
+                                 "tied exception relinquishes the level)", 1)
+                if "not-judged" in lab:
+                    acc.add_info("part8 evaluations not judged for the next transition: the value shown leaves the admissible set "
+                                 "before the reported transition", 1)
+                if bad is not None:
+                    sig, detail = bad
+                    detail = dict(detail)
+                    detail.update({"schedule": desc, "date": str(d), "weekday": d.isoweekday(), "time": t})
+                    acc.fail(sig, detail, {"part": 8, "desc": desc, "date": (d.year, d.month, d.day), "time": t})
+        finally:
+            unbuild(app, so, cals)
+        acc.evaluations += len(INSTANTS)
+        acc.keys.add(h64(("p8", cfg)))
+        acc.add_info("part8 schedules (%d exceptions of equal priority in force)" % len(cfg[0]), 1)
+        acc.add_info("part8 (schedule,date,instant) evaluations", len(INSTANTS))
+        if ci == 40:
+            acc.sample({"part": 8, "schedule": desc, "date": str(d),
+                        "admissible": [(t, sorted(ref.admissible_values(desc, d, t)[1] | ref.admissible_values(desc, d, t)[2]))
+                                       for t in INSTANTS]})
+    return acc
+
+
 # ----------------------------------------------------------------------------- entry points
 
 def _dl(dates):
@@ -2277,7 +2458,14 @@ def run(tier, seed, deadline):
     span = deadline - t_start
     quick = tier == "quick"
 
-    # ---- part 3 first: few, and the liveness part of the statement
+    # ---- part 8 first (short, fixed cost): equal priorities in force on one day, membership in the set of tie resolutions
+    t8 = time.time()
+    n8 = len(list(p8_configs(tier)))
+    run_shards(p8_shard, [(seed, tier, c) for c in chunks(list(range(n8)), 64)], t_start + 0.12 * span, into=acc)
+    acc.info["part8 configurations"] = n8
+    acc.info["part8 wall_s"] = round(time.time() - t8, 1)
+
+    # ---- part 3: few, and the liveness part of the statement
     cfgs = list(p3_configs(tier))
     run_shards(p3_shard, chunks(cfgs, 64), t_start + 0.15 * span, into=acc)
     acc.info["part3 configurations"] = len(cfgs)
@@ -2379,6 +2567,22 @@ def replay(case):
         finally:
             unbuild(app, so, cals)
         return bad is None, "eval(%s, %r) -> %r; reference %r; %s\nschedule=%r" % (d, t, res, ref.present_value(desc, d, t), bad or lab, desc)
+    if part == 8:
+        desc = tup(case["desc"])
+        d = datetime.date(*case["date"])
+        t = tuple(case["time"])
+        app, so, cals = build(desc)
+        try:
+            lab, bad = judge_tied(desc, d, t, so)
+            try:
+                res = so._task.eval(dtuple(d), t)
+                res = None if res is None else (getattr(res[0], "value", res[0]), res[1])
+            except Exception as err:
+                res = "raises %r" % (err,)
+        finally:
+            unbuild(app, so, cals)
+        return bad is None, "eval(%s, %r) -> %r; admissible (per exception, per level) %r; %s\nschedule=%r" % (
+            d, t, res, ref.admissible_values(desc, d, t)[1:], bad or lab, desc)
     if part == 3:
         obs, verdict, swallowed = p3_run(case["desc"], datetime.date(*case["day0"]), tuple(case["start"]))
         lines = ["%s %s pv=%r armed=%r active=%r expected=%r" % o for o in obs if o[4]][:12]
